@@ -181,9 +181,57 @@ def answerH (T : Table) (steps : List Step) : String :=
   let spec := if specs.all Option.isSome then ";;".intercalate (specs.map (·.getD "-")) else "-"
   s!"{model}\t{spec}"
 
+/-! entry point (`main` stream): `cf/<name>` starts the definition of an existing file (then `sec/`, `kv/`), `w/<word>` the
+raw words given to `client.main`; `intent`, then the pieces as written `pc/<0|1>/<name>`, `pp/<word>`, `po/<flag>/<arg>…` (spec column). -/
+structure MReq where
+  table : List Opt := []
+  fm : List (Str × File) := []     -- reversed, files reversed as in `Req`
+  words : List Str := []           -- reversed
+  intent : Bool := false
+  pieces : List Piece := []        -- reversed: the command line as the generator wrote it
+
+def stepM (r : Option MReq) (w : String) : Option MReq := do
+  let r ← r
+  match w.splitOn "/" with
+  | ["opt", sec, key, ty, d, fl, nfl, dest] =>
+    let o : Opt := ⟨← str? sec, ← str? key, ← str? dest, ← ty? ty, ← val? d, ← strs? fl, ← strs? nfl⟩
+    pure { r with table := o :: r.table }
+  | ["cf", n] => pure { r with fm := ((← str? n), []) :: r.fm }
+  | ["sec", s] =>
+    match r.fm with
+    | (n, f) :: fs => pure { r with fm := (n, ((← str? s), []) :: f) :: fs }
+    | [] => none
+  | ["kv", k, v] =>
+    match r.fm with
+    | (n, (s, items) :: f) :: fs => pure { r with fm := (n, (s, ((← str? k), (← str? v)) :: items) :: f) :: fs }
+    | _ => none
+  | ["w", x] => pure { r with words := (← str? x) :: r.words }
+  | ["intent"] => pure { r with intent := true }
+  | ["pc", l, n] => pure { r with pieces := .cfg (l == "1") (← str? n) :: r.pieces }
+  | ["pp", x] => pure { r with pieces := .pos (← str? x) :: r.pieces }
+  | "po" :: flag :: args => pure { r with pieces := .occ ⟨← str? flag, ← args.mapM str?⟩ :: r.pieces }
+  | _ => none
+
+def answerM (r : MReq) : String :=
+  let T := if r.table.isEmpty then PlasVerif.Generated.Config.table else r.table.reverse
+  let fm := (r.fm.map fun nf => (nf.1, (nf.2.map fun s => (s.1, s.2.reverse)).reverse)).reverse
+  let model := match mainModel false T fm r.words.reverse with
+    | .error e => s!"err:{errStr e}"
+    | .ok st => obsModel T st
+  let ps := r.pieces.reverse
+  -- the spec speaks about unambiguous arrangements of pieces with exactly one document, rendered to these very words
+  let spec := if !(r.intent && piecesOk T ps && (posWords ps).length == 1 && renderPieces ps == r.words.reverse) then "-" else
+    let files := (cfgNames ps).filterMap fun n => (fm.find? (·.1 = n)).map (·.2)
+    let argv := occsOfPieces ps
+    if !inDomain T files argv then "-" else (obsSpec T (den T files argv)).getD "-"
+  s!"{model}\t{spec}"
+
 def handle : List String → String
   | "cfg" :: ws | "one" :: ws | "tab" :: ws => match ws.foldl step (some {}) with
     | some r => let (T, f, a) := finish r; answer false T f a
+    | none => "bad-op"
+  | "main" :: ws => match ws.foldl stepM (some {}) with
+    | some r => answerM r
     | none => "bad-op"
   | "hist" :: ws => match ws.foldl stepH (some {}) with
     | some r => let (T, st) := finishH r; answerH T st
